@@ -285,7 +285,10 @@ class TelegramQueue:
         TDataGroup telegrams with undecodable DataSecure payloads
         or unexpected plain payloads are forwarded.
         """
-        for data_secure_group_key_issue_cb in self._data_secure_group_key_issue_cbs:
+        # iterate over a copy - a callback may unregister itself (or others)
+        for data_secure_group_key_issue_cb in tuple(
+            self._data_secure_group_key_issue_cbs
+        ):
             try:
                 data_secure_group_key_issue_cb(telegram)
             except Exception as e:  # pylint: disable=broad-except
